@@ -9,11 +9,22 @@ import (
 	"context"
 	"encoding/hex"
 	"errors"
+	"os"
+	"strconv"
 	"time"
 
 	"github.com/pulumi/esc"
 	"github.com/pulumi/esc/eval"
 )
+
+// evrawHangAfter: an operation that has not returned after this long counts as a hang.  Generous on purpose (a loaded
+// machine must not turn a slow operation into an alarm); VERIF_HANG_SECONDS overrides it for experiments.
+var evrawHangAfter = func() time.Duration {
+	if v, err := strconv.Atoi(os.Getenv("VERIF_HANG_SECONDS")); err == nil && v > 0 {
+		return time.Duration(v) * time.Second
+	}
+	return 20 * time.Second
+}()
 
 func init() { register("EVRAW", evRawHandler) }
 
@@ -62,7 +73,7 @@ func guarded(f func() string) (out string) {
 	select {
 	case s := <-done:
 		return s
-	case <-time.After(4 * time.Second):
+	case <-time.After(evrawHangAfter):
 		return "hang"
 	}
 }
